@@ -145,8 +145,45 @@ fn aliasing(ctx: &mut Ctx) {
     }
 }
 
+/// object graphs with reference cycles (never printed): dispatch looks at the receiver and its parents
+/// only, so what else is reachable from them cannot matter. 6 cycle shapes x 2 receivers x 9 calls.
+fn cyclic_graphs(ctx: &mut Ctx) {
+    ctx.stage("U-OBJ cyclic graphs: dispatch does not follow fields or cells");
+    let base = || object(Some(int(5)), vec![field("link", E::Null), field("v", int(10)),
+        method("m", &["k"], binop("+", fget(var("this"), "v"), var("k"))), method("get", &["i"], binop("*", var("i"), int(3))),
+        method("set", &["i", "w"], fset(var("this"), "v", var("w")))]);
+    let child = || object(Some(var("o")), vec![field("link", E::Null), field("w", int(1))]);
+    let calls: Vec<E> = vec![
+        mcall(var("r"), "m", vec![int(1)]), idx(var("r"), int(2)), idxset(var("r"), int(0), int(77)), binop("+", var("r"), int(1)),
+        binop("<", var("r"), int(9)), mcall(var("r"), "nosuch", vec![]), mcall(var("r"), "m", vec![]), fget(var("r"), "v"), binop("==", var("r"), E::Null),
+    ];
+    for shape in 0..6usize {
+        for recv in ["o", "c"] {
+            for call in &calls {
+                if ctx.take().is_none() { continue }
+                let mut p = vec![let_("o", base()), let_("c", child()), let_("cells", array(int(2), E::Null))];
+                match shape {
+                    0 => p.push(fset(var("o"), "link", var("o"))),                                   // the parent points at itself
+                    1 => p.push(fset(var("c"), "link", var("c"))),                                   // the receiver points at itself
+                    2 => { p.push(fset(var("o"), "link", var("c"))); p.push(fset(var("c"), "link", var("o"))) } // parent and child point at each other
+                    3 => { p.push(idxset(var("cells"), int(0), var("c"))); p.push(fset(var("c"), "link", var("cells"))) } // through an array cell
+                    4 => { p.push(let_("sib", object(Some(var("o")), vec![field("link", var("c"))]))); p.push(fset(var("c"), "link", var("sib"))) } // two siblings
+                    _ => { p.push(idxset(var("cells"), int(1), var("cells"))); p.push(fset(var("o"), "link", var("cells"))) } // an array that contains itself
+                }
+                p.push(let_("r", var(recv)));
+                let is_store = matches!(call, E::IdxSet(..));
+                p.push(if is_store { call.clone() } else { print("=~\\n", vec![call.clone()]) });
+                p.push(print("|~ ~\\n", vec![fget(var("o"), "v"), fget(var("c"), "w")]));
+                semantic_case(ctx, "U-OBJ/cyclic", &p);
+                ctx.count("programs", 1);
+            }
+        }
+    }
+}
+
 pub fn run(ctx: &mut Ctx) {
     let d = if ctx.quick() { 4 } else { 5 };
     aliasing(ctx);
+    cyclic_graphs(ctx);
     chains(ctx, d);
 }
